@@ -29,12 +29,14 @@ TRUSTED = [
     "translator/slope_c17.py (Python ast -> Gallina for _slope, fail-closed); validated on every run "
     "because the regenerated gen_slope is proved equal to the model (Bridge.v) and compared with the "
     "implementation on random series",
-    "translator/combine_c17.py (fail-closed ast extractor for the predict_proba / predict / score "
-    "functions of the runnable classifiers, _transform and _get_intervals): the numpy reading it "
-    "encodes - np.sum(list of matrices, axis=0) = entry-wise sum over members, a vector of ones times a "
-    "scalar = that scalar broadcast, np.searchsorted of a sorted sub-list = positions of its labels, "
-    "sums[i, class_dictionary[label]] += w = weight_for - is trusted; the regenerated definitions are "
-    "proved equal to the model (BridgeSites.v) and the model is compared with the running code",
+    "translator/combine_c17.py on the symbolic executor translator/symexec_c19.py (fail-closed: the "
+    "predict_proba / predict / score functions of the runnable classifiers, _transform and "
+    "_get_intervals are executed on symbolic values and the returned value is translated): the numpy "
+    "reading it encodes - np.sum(list of matrices, axis=0) = entry-wise sum over members, a vector of "
+    "ones times a scalar = that scalar broadcast, np.searchsorted of a sorted sub-list = positions of "
+    "its labels, votes[i, class_dictionary[label]] += w = weight_for, check_X / squeeze = the same "
+    "series, delayed(f)(args) = f(args) - is trusted; the regenerated definitions are proved equal to "
+    "the model (BridgeSites.v) and the model is compared with the running code",
     "props/c17.py driver_init: sklearn 1.7 ForestClassifier/ForestRegressor.__init__ wrapped to accept "
     "the removed `base_estimator=` keyword (mapped to `estimator=`, attribute `base_estimator` set) so "
     "that the interval forests can be constructed; nothing in /repo is patched",
